@@ -105,6 +105,13 @@ def build_params(case, extra):
         md["method_name"] = me
         for suffix, v in case["global_meth"][me].items():
             _set_path(md, meth_paths[suffix], copy.deepcopy(v))
+        for suffix in case.get("missing_meth", {}).get(me, []):
+            # the (last) path element is absent from the method's parameter file
+            parts = meth_paths[suffix].split(".")
+            dd = md
+            for p_ in parts[:-1]:
+                dd = dd[p_]
+            dd.pop(parts[-1], None)
         methods[me] = md
     return vw, methods
 
@@ -228,11 +235,12 @@ def canon_choice(v):
 
 
 class ValTable:
-    """opaque value ids of a case: canonical value <-> id (1 = True, 0 = False are fixed)"""
+    """opaque value ids of a case: canonical value <-> id (1 = True, 0 = False, 2 = the number 0 are fixed)"""
 
     def __init__(self):
-        self.ids = {("b", False): 0, ("b", True): 1}
-        self.vals = {0: ("b", False), 1: ("b", True)}
+        zero = ("n", Fraction(0))
+        self.ids = {("b", False): 0, ("b", True): 1, zero: 2}
+        self.vals = {0: ("b", False), 1: ("b", True), 2: zero}
 
     def id_of(self, c):
         if c not in self.ids:
@@ -272,30 +280,45 @@ class Rejected(Exception):
 
 
 def run_impl(case, extra):
-    """returns ("ok", world) | ("reject", what); world = list of site dicts read from the real objects"""
+    """returns (status, world | what, sample) with status ok | reject | crash | infra; world = list of site
+    dicts read from the real objects; sample = the rows `sites_in.sample(n)` drew (index labels of the
+    sites file, in the drawn order; None if the call was not reached) — recorded by a harness-side
+    wrapper around DataFrame.sample for the duration of the construction"""
     d = tempfile.mkdtemp(prefix="c15_")
     try:
         write_folder(case, d)
         bad = check_roundtrip(case, d)
         if bad:
-            return ("infra", bad)
+            return ("infra", bad, None)
         vw, methods = build_params(case, extra)
         _EQ_CLEAN_LIST[:] = _EQ_CLEAN_ORIG   # the cleaning appends to this class-level list on every call
         np.random.seed(case.get("np_seed", 0))
         out = io.StringIO()
         import contextlib
         import logging
+        import warnings
         logging.disable(logging.CRITICAL)
+        rec = {"sample": None}
+        orig_sample = pd.DataFrame.sample
+
+        def recording_sample(self, *a, **k):
+            res = orig_sample(self, *a, **k)
+            if rec["sample"] is None:
+                rec["sample"] = [int(i) for i in res.index]
+            return res
+        pd.DataFrame.sample = recording_sample
         try:
-            with contextlib.redirect_stdout(out):
+            with contextlib.redirect_stdout(out), warnings.catch_warnings():
+                warnings.simplefilter("ignore")
                 infra = Infrastructure(vw, methods, Path(d))
         except SystemExit:
-            return ("reject", "SystemExit")
+            return ("reject", "SystemExit", rec["sample"])
         except Exception as e:  # a crash of the real code on this input
-            return ("crash", "%s: %s" % (type(e).__name__, e))
+            return ("crash", "%s: %s" % (type(e).__name__, e), rec["sample"])
         finally:
+            pd.DataFrame.sample = orig_sample
             logging.disable(logging.NOTSET)
-        return ("ok", read_world(infra, case["methods"]))
+        return ("ok", read_world(infra, case["methods"]), rec["sample"])
     finally:
         shutil.rmtree(d, ignore_errors=True)
 
@@ -321,7 +344,10 @@ def read_world(infra, methods):
             "groups": [],
         }
         for g in s._equipment_groups:
-            grp = {"gid": str(g.get_id()),
+            gid = g.get_id()
+            if isinstance(gid, (float, np.floating)) and float(gid) == int(gid):
+                gid = int(gid)          # numeric equipment 0.0: the group number as a float
+            grp = {"gid": str(gid),
                    "times": [g._meth_survey_times[m] for m in methods],
                    "costs": [g._meth_survey_costs[m] for m in methods],
                    "comps": []}
@@ -344,7 +370,17 @@ def read_world(infra, methods):
 # ----------------------------------------------------------------------------------------------
 # rendering: implementation world and model input in the driver's notation
 # ----------------------------------------------------------------------------------------------
-def dump_world(world, vt):
+def _own_rate_flags(case, tables, ctype, n):
+    """for the sources of a component of type `ctype` (in file order): does the source's own row give a
+    production rate?  Placeholder sources have no row."""
+    if ctype in ("Placeholder", "Placeholder_Rep", "Placeholder_NonRep") or not case.get("sources"):
+        return [False] * n
+    rows = [r for r in case["sources"]["rows"] if r["component"] == ctype]
+    flags = [r.get(tables["srcEpr"]) is not None for r in rows]
+    return flags if len(flags) == n else [None] * n
+
+
+def dump_world(world, vt, case, tables):
     def pv(v):
         return vt.tok_known(canon(v))
 
@@ -365,7 +401,14 @@ def dump_world(world, vt):
                     srcs.append("%s=%d/%s/%s/%s/%s/%s/%s/%s/%s" % (
                         r["sid"], 1 if r["rep"] else 0, pv(r["ers"]), qtok(r["epr"]), pv(r["dur"]),
                         pv(r["multi"]), choice(r["rd"]), choice(r["rc"]), pvs(r["spatial"]), pvs(r["temporal"])))
-                comps.append(c["cid"] + ":" + ",".join(srcs))
+                # the rate the component hands to its sources, read off a source of the kind whose own
+                # row gives no rate (`*`: the component has no such source)
+                own = _own_rate_flags(case, tables, c["cid"].rsplit("_", 1)[0], len(c["sources"]))
+                obs = []
+                for kind in (True, False):
+                    cand = [r for r, o in zip(c["sources"], own) if r["rep"] == kind and o is False]
+                    obs.append("?" if None in own else (qtok(cand[0]["epr"]) if cand else "*"))
+                comps.append(c["cid"] + "{" + obs[0] + "|" + obs[1] + "}:" + ",".join(srcs))
             groups.append("~".join([g["gid"], pvs(g["times"], qtok), pvs(g["costs"], qtok), "&".join(comps)]))
         times = ";".join("-" if t is None else str(t) for t in s["time"])
         sites.append("~".join([s["sid"], s["stype"], pvs(s["freq"]), pvs(s["months"]), pvs(s["years"]),
@@ -379,6 +422,9 @@ def equip_token(v):
     if isinstance(v, (int, float)) and not isinstance(v, bool):
         if v >= 0 and float(v) == int(v):
             return "#%d" % int(v)
+        if v > 0:
+            f = Fraction(v)
+            return "#%d_%d" % (f.numerator, f.denominator)
         return "-"
     return "@" + str(v).replace(",", "|")
 
@@ -399,6 +445,26 @@ def numeric_column(table, col):
     return bool(vals) and all(isnum(x) for x in vals)
 
 
+def count_columns(case, tables):
+    eq = case.get("equipment")
+    if not eq:
+        return []
+    known = set(tables["globalPlain"])
+    suffixes = set(tables["globalMeth"]) | {tables["siteDeploy"]}
+    return [c for c in eq["cols"][1:] if c not in known and not any(c.endswith(sfx) for sfx in suffixes)]
+
+
+def float_count_column(case, tables):
+    """pandas reads a component-count column with a blank or non-integer cell as floats"""
+    eq = case.get("equipment")
+    for c in count_columns(case, tables):
+        for r in eq["rows"]:
+            v = r.get(c)
+            if v is None or (isinstance(v, float) and not isinstance(v, bool)):
+                return True
+    return False
+
+
 def _equip_value(table, row):
     v = row.get("equipment")
     if v is None:
@@ -415,6 +481,8 @@ def model_lines(case, tables, vt, picks):
     scale_meth = set(tables["scaleMeth"])
     choice_keys = {tables["repPrefix"] + tables["srcRd"], tables["repPrefix"] + tables["srcRc"],
                    tables["srcRd"], tables["srcRc"]}
+    dur_keys = {tables["repPrefix"] + tables["srcDur"], tables["nonRepPrefix"] + tables["srcDur"],
+                tables["srcDur"]}
     meth_cols = {}
     for me in methods:
         for p in set(tables["globalMeth"]) | {tables["siteDeploy"]}:
@@ -429,6 +497,10 @@ def model_lines(case, tables, vt, picks):
             return qtok(v)
         if col in choice_keys:
             return vt.tok(canon_choice(v))
+        if col in dur_keys and not isinstance(v, (bool, str)):
+            # the source applies int() to the duration in effect and nothing else looks at it: the
+            # truncation commutes with the propagation, so the model is handed the truncated value
+            return vt.tok(canon(int(v)))
         return vt.tok(canon(v))
 
     def cells(row, cols, skip, source_row=False, counts=()):
@@ -447,11 +519,13 @@ def model_lines(case, tables, vt, picks):
         lines.append("g %s %s" % (k, val(k, v)))
     for me in methods:
         for suffix, v in case["global_meth"][me].items():
+            if suffix in case.get("missing_meth", {}).get(me, []):
+                continue    # absent from the method's parameter file: the model applies the code's default
             lines.append("gm %s %s %s" % (me, suffix, val(me + suffix, v)))
     types, sites, equipment, sources = (case.get(k) for k in ("types", "sites", "equipment", "sources"))
-    lines.append("flags %d %d %d %d" % (1 if types else 0, 1 if "equipment" in sites["cols"] else 0,
-                                        1 if (types and "equipment" in types["cols"]) else 0,
-                                        1 if sources else 0))
+    lines.append("flags %d %d %d %d %d" % (1 if types else 0, 1 if "equipment" in sites["cols"] else 0,
+                                           1 if (types and "equipment" in types["cols"]) else 0,
+                                           1 if sources else 0, 1 if float_count_column(case, tables) else 0))
     if types:
         for r in types["rows"]:
             lines.append("type %s %s %s" % (r["site_type"], equip_token(_equip_value(types, r)),
